@@ -172,6 +172,8 @@ class C13(object):
                 args += ["--name", rng.choice(["PROG", "x", "LONGERNAME"])]
             if rng.chance(0.3):
                 args += ["--print"]
+                if rng.chance(0.4):
+                    args += ["--width", str(rng.choice([1, 40, 66, 67, 80, 100, 132, 1000]))]
             if rng.chance(0.3):
                 args += ["--symbols"]
             if rng.chance(0.2):
